@@ -5,7 +5,8 @@
    callback `f` (token, usize).  All statements hold for EVERY token tree `t` (no well-formedness
    assumption on spans or rules). *)
 From Coq Require Import List NArith Arith Permutation.
-From PT Require Import Model.Tok Model.Traverse Proofs.TraverseProofs.
+From Coq Require Import Sorted.
+From PT Require Import Model.Base Model.Stack Model.Texpr Model.Sem Model.Tok Model.Tokens Model.Traverse Proofs.TraverseProofs Proofs.TokenNesting.
 Import ListNotations.
 
 (* iterate_pre_order: with fuel >= 2*size+2 the stack-of-queues loop terminates and calls f exactly on
@@ -62,3 +63,47 @@ Print Assumptions C15_thin.
    tree produced by the parser model, child spans are nested in their parent and siblings are ordered
    and disjoint.  To be added here as `Theorem C15_nesting : ... Proof. exact <lemma>. Qed.` followed by
    its Print Assumptions line. *)
+
+(* ---- "All spans are nested in their parent and ordered among siblings" / "children() are the direct child tokens in input
+   order" -- about the token tree of every parse result (Model/Tokens.v = what the Pair API exposes).
+   [nested lo hi toks]: the tokens lie inside [lo, hi] in order (end_i <= start_(i+1)), each with start <= end, and recursively
+   so for the children inside the token's own span.  Unconditional: every successful run of the real parse path, every
+   expression, every environment (also the unrepaired variants), every input. *)
+Theorem C15_nesting : forall E fuel inh e pos st p t st',
+  tparse E fuel inh e pos st = Ok (p, t) st' -> nested pos p (tokens E t).
+Proof. exact tokens_nested. Qed.
+Print Assumptions C15_nesting.
+
+Theorem C15_entry_nesting : forall E fuel r p t st',
+  try_parse_partial E fuel r = Ok (p, t) st' -> nested (i_start (e_inp E)) p (tokens E t).
+Proof. exact entry_tokens_nested. Qed.
+Print Assumptions C15_entry_nesting.
+
+(* a parsed non-silent rule is ONE token spanning exactly what it consumed, its children nested inside *)
+Theorem C15_rule_token : forall E fuel inh r arg pos st p t st',
+  r_emis (e_rules E r) <> EmExpr ->
+  tparse E fuel inh (TRule r arg) pos st = Ok (p, t) st' ->
+  exists cs, tokens E t = [Tok r pos p cs] /\ nested pos p cs /\
+    (cs = [] \/ exists c sp, t = NRule r (Some c) sp /\ cs = tokens E c /\ has_children E r = true).
+Proof. exact rule_token_children_nested. Qed.
+Print Assumptions C15_rule_token.
+
+(* siblings are in input order and disjoint; every token of the tree (pre-order enumeration of Model/Traverse.v) lies inside
+   the parsed range, its children inside it and sorted *)
+Theorem C15_siblings_ordered : forall E fuel inh e pos st p t st',
+  tparse E fuel inh e pos st = Ok (p, t) st' ->
+  Sorted tok_before (tokens E t) /\
+  (forall i a b, nth_error (tokens E t) i = Some a -> nth_error (tokens E t) (S i) = Some b -> tok_end a <= tok_start b) /\
+  (forall i j a b, i < j -> nth_error (tokens E t) i = Some a -> nth_error (tokens E t) j = Some b -> tok_end a <= tok_start b) /\
+  Forall (fun a => pos <= tok_start a /\ tok_start a <= tok_end a /\ tok_end a <= p) (tokens E t).
+Proof. exact tokens_sorted. Qed.
+Print Assumptions C15_siblings_ordered.
+
+Theorem C15_nested_everywhere : forall E fuel inh e pos st p t st',
+  tparse E fuel inh e pos st = Ok (p, t) st' ->
+  forall top d, In top (tokens E t) -> In d (all_tokens top) ->
+    pos <= tok_start d /\ tok_start d <= tok_end d /\ tok_end d <= p /\
+    Forall (fun c => tok_start d <= tok_start c /\ tok_start c <= tok_end c /\ tok_end c <= tok_end d) (tok_children d) /\
+    StronglySorted tok_before (tok_children d).
+Proof. exact tokens_nested_everywhere. Qed.
+Print Assumptions C15_nested_everywhere.
